@@ -8,6 +8,9 @@
 //	    methods and RPC methods (rainrpc client). Built with -race: the race detector is the observer.
 //	c20 recipe -ops Session.StartAll,Session.AddTorrent,Session.updateStats -dur MS -seed S -dir D -out result.json
 //	    the operations of one lock-up cycle predicted by TLC (MC_Locks_asis) in tight loops, ResumeWriteInterval 1 ms.
+//	c20 phases -dur MS -seed S -dir D -out result.json
+//	    command histories issued DURING allocation / verification (gates in the storage provider) and while the DHT
+//	    announcer of a started torrent is busy (DHT node on loopback, tiny DHTMinAnnounceInterval): see phases.go.
 //
 // Every call is registered with a watchdog; a call that does not return within -limit ms makes the child dump
 // all goroutine stacks (runtime.Stack) to <dir>/goroutines.txt, write the result file and exit with status 3.
@@ -241,10 +244,16 @@ func newSession(sub string, resumeEvery time.Duration, rpc bool, dht bool) (*tor
 		cfg.DHTAnnounceInterval = 200 * time.Millisecond
 		cfg.DHTMinAnnounceInterval = 100 * time.Millisecond
 	}
+	if cfgTweak != nil {
+		cfgTweak(&cfg)
+	}
 	s, err := torrent.NewSession(cfg)
 	fatal(err)
 	return s, cfg
 }
+
+// cfgTweak, when set, adjusts the configuration of the next session (mode phases: custom storage, DHT intervals)
+var cfgTweak func(cfg *torrent.Config)
 
 // ---------------------------------------------------------------------------------------------------------------------
 // stress: random mix of all public API + RPC calls
@@ -690,6 +699,8 @@ func main() {
 	switch mode {
 	case "stress":
 		stress(*mix, time.Duration(*durMs)*time.Millisecond, *nw, *seed, *skip)
+	case "phases":
+		phases(time.Duration(*durMs)*time.Millisecond, *seed)
 	case "recipe":
 		l := strings.Split(*opsArg, ",")
 		sort.Strings(l)
